@@ -149,9 +149,88 @@ def parse_consts(paths):
     return consts
 
 
+def _qual(path):
+    """type path without generics / references: `&mut connection::error::Error<T>` -> `connection::error::Error`"""
+    path = re.sub(r"^&(mut )?", "", (path or "").strip())
+    path = re.sub(r"(::)?<.*", "", path)
+    return path.rstrip(":").strip()
+
+
+def _modpath(file):
+    """module path of a source file: /repo/fe2o3-amqp/src/connection/error.rs -> fe2o3_amqp::connection::error"""
+    m = re.search(r"/([\w-]+)/src/(.*)\.rs$", file)
+    if not m:
+        return ""
+    segs = [m.group(1).replace("-", "_")] + [x for x in m.group(2).split("/") if x not in ("mod", "lib")]
+    return "::".join(segs)
+
+
+class LayoutTable(dict):
+    """name -> layout for names defined once; names defined in several modules (`Error`, `Builder`, `Field`)
+    are NOT in the dict: they are looked up with their module path as rustc prints it for ambiguous names
+    (`connection::error::Error`). An ambiguous name that cannot be resolved is `Unsupported` (the obligation is
+    inconclusive) -- never a silent pick of one of the candidates."""
+
+    def __init__(self):
+        super().__init__()
+        self.amb = {}
+
+    def add(self, name, modpath, val):
+        if name in self.amb:
+            self.amb[name].append((modpath, val))
+        elif dict.__contains__(self, name):
+            self.amb[name] = [self._first[name], (modpath, val)]
+            dict.__delitem__(self, name)
+        else:
+            if not hasattr(self, "_first"):
+                self._first = {}
+            self._first[name] = (modpath, val)
+            dict.__setitem__(self, name, val)
+
+    def resolve(self, path):
+        q = _qual(path)
+        name = q.split("::")[-1]
+        if dict.__contains__(self, name):
+            return dict.__getitem__(self, name)
+        if name not in self.amb:
+            return None
+        qsegs = q.split("::")[:-1]
+        hits = []
+        for modpath, val in self.amb[name]:
+            msegs = modpath.split("::")
+            if qsegs and (msegs[-len(qsegs):] == qsegs or qsegs[-len(msegs):] == msegs or msegs[1:][-len(qsegs):] == qsegs):
+                hits.append(val)
+        if len(hits) == 1:
+            return hits[0]
+        raise Unsupported(f"`{path}` names {len(self.amb[name])} different types and its module path does not single one out")
+
+    def get(self, key, default=None):
+        r = self.resolve(key)
+        return default if r is None else r
+
+    def __getitem__(self, key):
+        r = self.resolve(key)
+        if r is None:
+            raise KeyError(key)
+        return r
+
+    def __contains__(self, key):
+        return self.resolve(key) is not None
+
+
+def _as_table(d):
+    if isinstance(d, LayoutTable):
+        return d
+    t = LayoutTable()
+    for k, v in d.items():
+        t.add(k, "", v)
+    return t
+
+
 def parse_layouts(paths):
-    structs, enums = {}, {}
-    for p in paths:
+    structs, enums = LayoutTable(), LayoutTable()
+    for p in sorted(paths):
+        modpath = _modpath(p)
         try:
             src = open(p, encoding="utf-8").read()
         except OSError:
@@ -183,7 +262,7 @@ def parse_layouts(paths):
                 fm = re.match(r"(?:pub(?:\([^)]*\))?\s+)?(\w+)\s*:", f)
                 if fm:
                     names.append(fm.group(1))
-            structs.setdefault(m.group(1), names)
+            structs.add(m.group(1), modpath, names)
         for m in re.finditer(r"\benum\s+(\w+)\s*(?:<[^{;]*?>)?\s*\{", src):
             body = _balanced(src, m.end() - 1)
             if body is None:
@@ -217,7 +296,7 @@ def parse_layouts(paths):
                     idx = int(lit, 16) if lit.startswith("0x") else int(lit)
                 vmap[vm.group(1)] = idx
                 idx += 1
-            enums.setdefault(m.group(1), vmap)
+            enums.add(m.group(1), modpath, vmap)
     return structs, enums
 
 
@@ -308,8 +387,8 @@ class Executor:
     def __init__(self, fns, structs, enums, inline=None, max_visits=3, max_paths=4000, consts=None):
         self.consts = consts or {}
         self.fns = fns
-        self.structs = structs
-        self.enums = enums
+        self.structs = _as_table(structs)
+        self.enums = _as_table(enums)
         self.inline = inline or {}
         self.max_visits = max_visits
         self.max_paths = max_paths
@@ -531,9 +610,9 @@ class Executor:
             w = INT_BITS.get(norm_type(ty or cty or "usize"), INT_BITS.get(norm_type(cty or "usize"), 64))
             return z3.BitVecVal(val, w)
         m = re.match(r"(\w+(?:::\w+)*)::(\w+)$", c)
-        if m and m.group(2) in self.enums.get(m.group(1).split("::")[-1], {}):
+        if m and m.group(2) in self.enums.get(m.group(1), {}):
             a = Agg(c)
-            a["#d"] = z3.BitVecVal(self.enums[m.group(1).split("::")[-1]][m.group(2)], 64)
+            a["#d"] = z3.BitVecVal(self.enums[m.group(1)][m.group(2)], 64)
             return a
         return Agg("const:" + c[:30])
 
@@ -658,10 +737,10 @@ class Executor:
             return
         # enum variant / struct aggregates:  Path::Variant(args) | Path { f: v, .. } | Path::Variant
         m = self._split_variant(rhs)
-        if m and (m.group(2) in BUILTIN_VARIANTS or m.group(2) in self.enums.get(self._simple(m.group(1)), {})) and " as " not in rhs:
+        if m and (m.group(2) in BUILTIN_VARIANTS or m.group(2) in self.enums.get(_qual(m.group(1)), {})) and " as " not in rhs:
             vname = m.group(2)
             ename = self._simple(m.group(1))
-            d = BUILTIN_VARIANTS.get(vname) if ename in ("Option", "Result", "Poll", "ControlFlow") else self.enums.get(ename, {}).get(vname, BUILTIN_VARIANTS.get(vname))
+            d = BUILTIN_VARIANTS.get(vname) if ename in ("Option", "Result", "Poll", "ControlFlow") else self.enums.get(_qual(m.group(1)), {}).get(vname, BUILTIN_VARIANTS.get(vname))
             a = Agg(f"{ename}::{vname}")
             a["#d"] = z3.BitVecVal(d, 64)
             if m.group(3) is not None:
@@ -672,11 +751,12 @@ class Executor:
             self.write_place(st, lhs, a)
             return
         m = re.match(r"([\w:<>, &'\[\]()]+?)(?:::(\w+))? \{ (.*) \}$", rhs)
-        if m and m.group(2) and not (self._simple(m.group(1)) in self.enums and m.group(2) in self.enums[self._simple(m.group(1))]):
+        if m and m.group(2) and not (m.group(2) in self.enums.get(_qual(m.group(1)), {})):
             # `path::Struct { .. }`: the last segment is the struct, not an enum variant
             m = re.match(r"([\w:<>, &'\[\]()]+?)() \{ (.*) \}$".replace("+?)()", "+)()"), rhs)
         if m:
             sname = self._simple(m.group(1))
+            squal = _qual(m.group(1))
             fields = {}
             for fa in self.split_args(m.group(3)):
                 k, v = fa.split(": ", 1)
@@ -684,7 +764,7 @@ class Executor:
             a = Agg(sname)
             if m.group(2):  # struct-like enum variant
                 ename, vname = sname, m.group(2)
-                d = self.enums.get(ename, {}).get(vname)
+                d = self.enums.get(squal, {}).get(vname)
                 if d is None:
                     raise Unsupported(f"unknown enum variant {rhs[:60]}")
                 a["#d"] = z3.BitVecVal(d, 64)
@@ -693,7 +773,7 @@ class Executor:
                     sub[i] = v
                 a[("as", vname)] = sub
             else:
-                order = self.structs.get(sname) or {"Range": ["start", "end"], "RangeFrom": ["start"], "RangeTo": ["end"]}.get(sname)
+                order = self.structs.get(squal) or {"Range": ["start", "end"], "RangeFrom": ["start"], "RangeTo": ["end"]}.get(sname)
                 if order is None:
                     raise Unsupported(f"struct layout of {sname} unknown")
                 for k, v in fields.items():
@@ -712,9 +792,9 @@ class Executor:
             return
         if re.fullmatch(r"[A-Z]\w*", rhs):
             # bare fieldless variant, e.g. `_6 = Mapped`: the enum is the destination's type
-            ename = self._simple(re.sub(r"^&(mut )?", "", (lty or self.deep_type(st, lhs) or "")))
+            ename = _qual(lty or self.deep_type(st, lhs) or "")
             cands = [e for e, vs in self.enums.items() if rhs in vs]
-            if ename in self.enums and rhs in self.enums[ename]:
+            if ename and rhs in self.enums.get(ename, {}):
                 pass
             elif len(cands) == 1:
                 ename = cands[0]
@@ -797,8 +877,8 @@ class Executor:
         nvar = None
         if base in ("Option", "Result", "Poll", "ControlFlow"):
             nvar = 2
-        elif base in self.enums:
-            vals = sorted(self.enums[base].values())
+        elif _qual(ty) in self.enums:
+            vals = sorted(self.enums[_qual(ty)].values())
             self.assumptions.append(z3.Or(*[d == v for v in vals]))
         if nvar:
             self.assumptions.append(z3.ULT(d, nvar))
@@ -1207,6 +1287,12 @@ class Executor:
             rec[3] = rv
             self.write_place(st, dest, rv)
             return [(st, ret_bb)]
+        m = re.match(r"(.*\)) -> (bb\d+)$", term)
+        if m and " = " in m.group(1) and m.group(2) in fn.cleanup:
+            # a call that never returns (its only edge is the unwind edge into a cleanup block): panic_fmt etc.
+            st.end = "diverges"
+            st.calls.append([m.group(1).split(" = ", 1)[1].split("(", 1)[0].strip(), [], list(st.cond), None])
+            return [(st, None)]
         m = re.match(r"yield\(", term)
         if m:
             raise Unsupported("yield terminator (un-lowered coroutine)")
